@@ -159,53 +159,42 @@ Theorem C12_demux_fixed_terminates : forall A fuel (items : list (nat * A)) (scr
 Proof. exact (@demux_once_terminates). Qed.
 Print Assumptions C12_demux_fixed_terminates.
 
-(* COMPOSITION (Push/PCompose.v).  [respects p Inv]: every operation of push [p] preserves the
-   invariant family [Inv] provided p's caller respects the protocol; [respects_rf] additionally
-   tolerates poll_ready between poll_finalize calls (what FlatMap / Flatten do to their
-   downstream).  Stages are operators on such pairs, with the reference function composed:
-   a pipeline of protocol-respecting stages respects the protocol. *)
+(* COMPOSITION (Push/PCompose.v, PCompose2.v).  [respects p Inv]: every operation of push [p]
+   preserves the invariant family [Inv] provided p's caller respects the protocol (poll_ready
+   while running, start_send only right after poll_ready = Done, then only poll_finalize).
+   Stages are operators on such pairs, with the reference function composed, over ANY
+   protocol-respecting downstream -- hence in any pipeline: a pipeline of protocol-respecting
+   stages respects the protocol.  The scripted recorder is the base case. *)
+Theorem C12_compose_base : forall B, respects (rec_push B) (@RecInv B).
+Proof. exact (@rec_respects). Qed.
+Print Assumptions C12_compose_base.
+
 Theorem C12_compose_forwarding : forall A B (p : push B) Inv (g : A -> option B),
-    respects_rf p Inv -> respects_rf (filter_map_push p g) (@SLInv _ _ p Inv g).
-Proof. exact filter_map_stage_rf. Qed.
+    respects p Inv -> respects (filter_map_push p g) (@SLInv _ _ p Inv g).
+Proof. exact filter_map_stage. Qed.
 Print Assumptions C12_compose_forwarding.
 
 Theorem C12_compose_map : forall A B (p : push B) Inv (f : A -> B),
-    respects_rf p Inv -> respects_rf (map_push p f) (@SLInv _ _ p Inv (fun a => Some (f a))).
-Proof. exact map_stage_rf. Qed.
+    respects p Inv -> respects (map_push p f) (@SLInv _ _ p Inv (fun a => Some (f a))).
+Proof. exact map_stage. Qed.
 Print Assumptions C12_compose_map.
 
 Theorem C12_compose_filter : forall A (p : push A) Inv (q : A -> bool),
-    respects_rf p Inv -> respects_rf (filter_push p q) (@SLInv _ _ p Inv (fun a => if q a then Some a else None)).
-Proof. exact filter_stage_rf. Qed.
+    respects p Inv -> respects (filter_push p q) (@SLInv _ _ p Inv (fun a => if q a then Some a else None)).
+Proof. exact filter_stage. Qed.
 Print Assumptions C12_compose_filter.
 
 Theorem C12_compose_flat_map : forall A B (p : push B) Inv (g : A -> list B),
-    respects_rf p Inv -> respects_rf (flat_map_push p g) (@FMSInv _ _ p Inv g).
-Proof. intros A B p Inv g H. exact (fms_respects_rf g H). Qed.
+    respects p Inv -> respects (flat_map_push p g) (@FMSInv _ _ p Inv g).
+Proof. intros A B p Inv g H. exact (fms_respects g H). Qed.
 Print Assumptions C12_compose_flat_map.
 
-Theorem C12_compose_base : forall B, respects_rf (rec_push B) (@RecInv B).
-Proof. exact (@rec_respects_rf). Qed.
-Print Assumptions C12_compose_base.
+Theorem C12_compose_flatten : forall B (p : push B) Inv,
+    respects p Inv -> respects (flatten_push p) (@FMSInv _ _ p Inv (fun l : list B => l)).
+Proof. exact flatten_stage. Qed.
+Print Assumptions C12_compose_flatten.
 
-(* a three-stage pipeline obtained by composing the stage theorems over the recorder; the
-   correspondence check runs the same pipeline (pipe_map_flatmap_filter) on the real code *)
-Theorem C12_pipeline_map_flatmap_filter :
-  forall A B C (f : A -> B) (g : B -> list C) (q : C -> bool) fuel items rs0 fs0,
-    match drive (map_push (flat_map_push (filter_push (rec_push C) q) g) f) fuel items
-                (None, mkds rs0 fs0 []) [] with
-    | (o, _, s') =>
-      o <> Panicked /\
-      (o = Finished ->
-       wf (lg (snd s')) = true /\ findone (lg (snd s')) = true /\
-       sent (lg (snd s')) = filter q (flat_map g (map f items)))
-    end.
-Proof. exact pipe_map_flatmap_filter_correct. Qed.
-Print Assumptions C12_pipeline_map_flatmap_filter.
-
-(* More stage operators (Push/PCompose2.v): each turns protocol-respecting downstream(s) into a
-   protocol-respecting push with the reference composed -- over ANY downstream, hence in any
-   pipeline.  accumulate.rs covers fold / reduce / sort-state (accum_state.rs). *)
+(* accumulate.rs covers fold / reduce / sort-state (accum_state.rs) *)
 Theorem C12_stage_accumulate : forall A B S (accf : S -> A -> S) (outf : S -> list B) st0 (p : push B) Inv,
     respects p Inv -> respects (accumulate_push accf outf p) (@AccInv _ _ _ accf outf st0 p Inv).
 Proof. intros. exact (acc_respects accf outf st0 H). Qed.
@@ -226,11 +215,14 @@ Theorem C12_stage_persist : forall B (pre0 rest0 : list B) (p : push B) Inv,
 Proof. intros. exact (persist_respects pre0 rest0 H). Qed.
 Print Assumptions C12_stage_persist.
 
-(* resolve_futures.rs without a subgraph waker (blocking mode), scripted future-readiness queue *)
-Theorem C12_stage_resolve_blocking : forall B (p : push B) Inv,
-    respects_rf p Inv -> respects (resolve_push p false) (@RInv _ p Inv).
-Proof. exact (@resolve_respects). Qed.
-Print Assumptions C12_stage_resolve_blocking.
+(* resolve_futures.rs (as of /repo 5464049ec0b), BOTH modes: w = false blocking, w = true with a
+   subgraph waker (futures still pending when finalization begins stay queued: [RInv]'s
+   finalizing / finished clauses say delivered ++ queued = outputs in send order, and with
+   w = false the queue is empty); scripted future-readiness queue *)
+Theorem C12_stage_resolve : forall B (w : bool) (p : push B) Inv,
+    respects p Inv -> respects (resolve_push p w) (@RInv _ w p Inv).
+Proof. intros B w p Inv H. exact (resolve_respects w H). Qed.
+Print Assumptions C12_stage_resolve.
 
 Theorem C12_stage_fanout : forall A (p0 : push A) Inv0 (p1 : push A) Inv1,
     respects p0 Inv0 -> respects p1 Inv1 ->
@@ -245,19 +237,12 @@ Proof. exact (@unzip_stage). Qed.
 Print Assumptions C12_stage_unzip.
 
 (* for_each.rs (and vec_push.rs, same shape): terminal base case *)
-Theorem C12_stage_for_each : forall A, respects_rf (for_each_push A) (@FEInv A).
-Proof. exact (@for_each_respects_rf). Qed.
+Theorem C12_stage_for_each : forall A, respects (for_each_push A) (@FEInv A).
+Proof. exact (@for_each_respects). Qed.
 Print Assumptions C12_stage_for_each.
 
-Theorem C12_resolve_waker_refuted :
-  match drive (resolve_push (rec_push N) true) 20 [(9%N, 2)] ([], mkds [true; false] [false] []) [] with
-  | (o, _, s') => o = Finished /\ wf (lg (snd s')) = false /\
-                  lg (snd s') = [EFin true; ERdy true; ESend 9%N; ERdy true; EFin false; ERdy true; ERdy false; ERdy true]
-  end.
-Proof. exact resolve_waker_refuted. Qed.
-Print Assumptions C12_resolve_waker_refuted.
-
-(* recorder-facing corollaries obtained by composition *)
+(* recorder-facing corollaries obtained by composition; the correspondence check runs the same
+   pipelines on the real code *)
 Theorem C12_accumulate : forall A B S (accf : S -> A -> S) (outf : S -> list B) st0 fuel items rs0 fs0,
     match drive (accumulate_push accf outf (rec_push B)) fuel items (@Accumulating B S st0, mkds rs0 fs0 []) [] with
     | (o, _, s') =>
@@ -267,6 +252,19 @@ Theorem C12_accumulate : forall A B S (accf : S -> A -> S) (outf : S -> list B) 
     end.
 Proof. exact (@accumulate_correct). Qed.
 Print Assumptions C12_accumulate.
+
+Theorem C12_pipeline_map_flatmap_filter :
+  forall A B C (f : A -> B) (g : B -> list C) (q : C -> bool) fuel items rs0 fs0,
+    match drive (map_push (flat_map_push (filter_push (rec_push C) q) g) f) fuel items
+                (None, mkds rs0 fs0 []) [] with
+    | (o, _, s') =>
+      o <> Panicked /\
+      (o = Finished ->
+       wf (lg (snd s')) = true /\ findone (lg (snd s')) = true /\
+       sent (lg (snd s')) = filter q (flat_map g (map f items)))
+    end.
+Proof. exact pipe_map_flatmap_filter_correct. Qed.
+Print Assumptions C12_pipeline_map_flatmap_filter.
 
 Theorem C12_pipeline_filter_fanout_fold :
   forall A B (q : A -> bool) (f : A -> B) (comb : A -> A -> A) init fuel items ra fa rb fb,
@@ -283,17 +281,30 @@ Theorem C12_pipeline_filter_fanout_fold :
 Proof. exact (@pipe_filter_fanout_fold_correct). Qed.
 Print Assumptions C12_pipeline_filter_fanout_fold.
 
-(* Composition FAILS for the strict protocol when a stage that polls poll_ready between
-   poll_finalize calls (flat_map / flatten / resolve_futures) feeds fanout / unzip / demux:
-   finding pipeline/flat_map-over-fanout/poll_ready-after-finalize-Done (replays on the real code). *)
-Theorem C12_compose_flat_map_over_fanout_refuted :
+(* HISTORY of two fixed findings (known_findings.d/C12.txt, `fixed:` lines).
+   - resolve_futures/start_send-after-poll_finalize-began (/repo 5464049ec0b): the former theorem
+     C12_resolve_waker_refuted was about the pre-fix step function, kept as
+     Model2.resolve_old_push with PCompose2.resolve_old_waker_refuted.  Former witness: waker,
+     one future (9, pending twice), ready script [Done; Pend], finalize script [Pend].
+   - pipeline/flat_map-over-fanout/poll_ready-after-finalize-Done (/repo cca62d2de0e): former
+     theorem C12_compose_flat_map_over_fanout_refuted, now PCompose.flat_map_old_over_fanout_refuted
+     about Historic.flat_map_old_push.  Former witness: flat_map (x -> [x; x+10]) over
+     fanout(A, B), items [1], B's finalize script [Pend].
+   Both witnesses are corpus cases and satisfy the strict protocol on the code as it is now: *)
+Example C12_resolve_former_witness :
+  match drive (resolve_push (rec_push N) true) 20 [(9%N, 2)] (false, ([], mkds [true; false] [false] [])) [] with
+  | (o, _, s') => o = Finished /\ wf (lg (snd (snd s'))) = true /\ sent (lg (snd (snd s'))) = [] /\
+                  map fst (fst (snd s')) = [9%N]
+  end.
+Proof. exact resolve_waker_witness_now. Qed.
+
+Example C12_flat_map_over_fanout_former_witness :
   match drive (flat_map_push (fanout_push (rec_push N) (rec_push N)) (fun x : N => [x; (x + 10)%N])) 20 [1%N]
               (None, ((false, false), (mkds [] [] [], mkds [] [false] []))) [] with
-  | (o, _, s') => o = Finished /\ wf (lg (fst (snd (snd s')))) = false /\
-                  lg (fst (snd (snd s'))) = [ERdy true; EFin true; ERdy true; ESend 11%N; ERdy true; ESend 1%N; ERdy true; ERdy true]
+  | (o, _, s') => o = Finished /\ wf (lg (fst (snd (snd s')))) = true /\ wf (lg (snd (snd (snd s')))) = true /\
+                  lg (fst (snd (snd s'))) = [EFin true; ERdy true; ESend 11%N; ERdy true; ESend 1%N; ERdy true; ERdy true]
   end.
-Proof. exact flat_map_over_fanout_refuted. Qed.
-Print Assumptions C12_compose_flat_map_over_fanout_refuted.
+Proof. exact flat_map_over_fanout_witness_now. Qed.
 
 (* non-vacuity: a run with Pend answers in both scripts that finishes and delivers items *)
 Example C12_map_example :
